@@ -181,6 +181,15 @@ func replayFile(path string) {
 			recByEntropy(ent, num(e["lang"]), keep)
 		case "Check":
 			recCheck(fromUnits(intsOf(e["in"])), num(e["lang"]), keep)
+			if _, ok := e["echo_same"]; ok { // recorded as a repetition of an earlier call: repeated here, too
+				for t := 0; t < 8; t++ {
+					k2 := Event{"echo_of": lastCheckNow}
+					for k, v := range keep {
+						k2[k] = v
+					}
+					recCheck(fromUnits(intsOf(e["in"])), num(e["lang"]), k2)
+				}
+			}
 		case "ToSeed":
 			al, _ := e["alias_checked"].(bool)
 			stop, times := func() {}, 1
@@ -197,6 +206,9 @@ func replayFile(path string) {
 			kind, _ := e["new"].(string)
 			if kind == "os" {
 				swapSource(osRandReader(), "os")
+			} else if kind == "seekable" { // not replayed byte by byte: a fresh source of the same type
+				injected = nil
+				swapSource(&seekSource{scriptReader: &scriptReader{fill: newRng(1, "replay")}}, kind)
 			} else {
 				// the reader is rebuilt at the next NewMnemonicCall from the recorded Read events
 				injected = &fixedReader{fill: newRng(1, "replay")}
@@ -228,7 +240,11 @@ func replayFile(path string) {
 		case "MapLens":
 			mapLens()
 		case "Cut":
-			if kind, _ := e["source"].(string); kind != "" && kind != "os" && injected == nil {
+			if kind, _ := e["source"].(string); kind == "seekable" {
+				if curSource != "seekable" {
+					swapSource(&seekSource{scriptReader: &scriptReader{fill: newRng(1, "replay")}}, kind)
+				}
+			} else if kind != "" && kind != "os" && injected == nil {
 				injected = &fixedReader{fill: newRng(1, "replay")}
 				swapSource(injected, kind)
 			}
